@@ -59,7 +59,32 @@ type Model struct {
 	Seq      int               `json:"seq,omitempty"` // counter for names of added sources
 }
 
-// RecordPath returns the path (relative to .dawn/build) of the persisted record of a label.
+// AllLabels returns the labels of every live target, of their declared sources and of the default
+// wrappers: everything that has a persisted record.
+func (m *Model) AllLabels() []string {
+	var out []string
+	seen := map[string]bool{}
+	add := func(l string) {
+		if !seen[l] {
+			seen[l] = true
+			out = append(out, l)
+		}
+	}
+	for _, t := range m.Live() {
+		add(m.Label(t))
+		for _, l := range m.SourceLabels(t) {
+			add(l)
+		}
+		if m.Targets[t].Default {
+			add(m.Pkgs[m.Targets[t].Pkg] + ":default")
+		}
+	}
+	return out
+}
+
+// RecordPath returns the path (relative to .dawn/build) of the persisted record of a label in
+// the layout of the pinned commit. Checks ask dawn instead (BuildReq.PathsFor); this remains for
+// tools that print cases.
 func RecordPath(label string) string {
 	kind := "target"
 	rest := label
